@@ -145,6 +145,46 @@ def pred_tlsv(case, impl):
     return 'chk_%s | %s' % (case, impl.split(' / ')[0])
 
 
+# ------------------------------------------------------------------------------------------------
+# control/rcpthosts variants: which recipient domains are local is computed by the model of finddomain()
+
+RCPTHOSTS = [('exact', b'example.org\n'), ('wildcard', b'.example.org\n'), ('upper', b'EXAMPLE.ORG\n'), ('trailing-blank', b'example.org  \n'),
+             ('no-newline', b'example.org'), ('comment', b'# example.org.evil.example\nexample.org\n'), ('absent', None),
+             ('two', b'other.example\nexample.org\n'), ('both', b'.example.org\nexample.org\n'), ('suffix-only', b'.org\n'),
+             ('evil-listed', b'evil-example.org\n'), ('tab', b'example.org\t\n')]
+RCPT_ADDRS = {'rcpt_alice': b'alice@example.org', 'rcpt_bob': b'bob@example.org', 'rcpt_remote': b'x@remote.example', 'rcpt_evil': b'x@evil-example.org',
+              'rcpt_suffix': b'x@example.org.evil.example', 'rcpt_sub': b'x@sub.example.org', 'rcpt_nomx': b'x@nomx.example', 'rcpt_nullmx': b'x@nullmx.example'}
+MXV = {b'remote.example': 'f', b'nullmx.example': 'n'}
+
+
+def rcpthosts_vocab(ctx, content):
+    v = make_vocab('none')
+    doms = sorted({a.split(b'@')[1] for a in RCPT_ADDRS.values()})
+    if content is None:
+        loc = {d: '0' for d in doms}
+    else:
+        outs = vlib.run_batch(ctx.driver, ['domainlocal %s %s' % (content.hex() or '-', d.hex()) for d in doms])
+        loc = dict(zip(doms, outs))
+    for name, addr in RCPT_ADDRS.items():
+        d = addr.split(b'@')[1]
+        if loc[d] == '1':
+            # only example.org is a vpopmail domain here; any other local domain is not in users/cdb: every user is accepted
+            exist = 1 if (d != W.LOCAL.encode() or addr.startswith((b'alice', b'carol'))) else 0
+            v[name] = W.rcpt_local(addr, exist)
+        else:
+            v[name] = W.rcpt_remote(addr, mx=MXV.get(d, 't'))
+    return v
+
+
+def rcpthosts_sequences(rng, n):
+    base = [['ehlo', 'mail', 'rcpt_alice', 'rcpt_sub', 'rcpt_evil', 'rcpt_suffix', 'rcpt_remote', 'data'],
+            ['ehlo', 'mail', 'rcpt_remote', 'rcpt_nullmx', 'rcpt_nomx', 'rcpt_alice', 'rcpt_bob', 'data']]
+    names = list(RCPT_ADDRS) + ['ehlo', 'mail', 'mail_bounce', 'rset', 'data']
+    for _ in range(n):
+        base.append(['ehlo', 'mail'] + [rng.choice(names) for _ in range(rng.randrange(2, 9))])
+    return base
+
+
 def run(ctx):
     vlib.lean_prepare(ctx, REQUIRED)
     b = session.build_qsmtpd(ctx)
@@ -179,6 +219,21 @@ def run(ctx):
             ctx.count('relay-file:%s' % (label if not label.startswith('random') else 'random'))
             ctx.count('auth:%s' % auth_mode)
             rs, obs_all = run_job(ctx, b, seqs, envtok, mk, vocab, 'relay %s %s auth=%s' % ('v4' if v4 else 'v6', label, auth_mode), rtok)
+    if b and ctx.driver:
+        for label, content in RCPTHOSTS:
+            vocab = rcpthosts_vocab(ctx, content)
+            for relay, rtok in (('absent', 'n'), ('listed', 'l')):
+                seqs = rcpthosts_sequences(ctx.rng, 6 if ctx.quick() else 60)
+
+                def mk(content=content, relay=relay):
+                    sc = W.base_scenario(relay=relay)
+                    if content is None:
+                        del sc.control['rcpthosts']
+                    else:
+                        sc.control['rcpthosts'] = content
+                    return sc
+                ctx.count('rcpthosts:%s' % label)
+                run_job(ctx, b, seqs, 'relay=%s,tls=n,db=0,sub=0' % rtok, mk, vocab, 'rcpthosts %s relay=%s' % (label, relay), rtok)
     h = vlib.build_harness(ctx, 'h_tlsverify')
     if h and ctx.driver:
         vlib.differential(ctx, 'tls_verify', h, gen_tlsv(ctx), canon_h=canon_tlsv, pred=pred_tlsv,
